@@ -24,5 +24,10 @@ PROPS = {
             "cross-sign optional constructor arguments are only drawn from values both types can hold",
         ],
         "floors": {"quick": {"nontrivial_frac": 0.2}, "thorough": {"nontrivial_frac": 0.2}},
+        "technique": "property-based testing (rapid): round-trip and copy-independence oracles over generated values; exhaustive enumeration of the 8192 event masks",
+        "level_text": "generated-input search: every conversion pair is checked as a round trip on the fields both sides carry, Copy() by mutating each reachable pointer/slice/map entry of copy and original, each optional constructor per argument form; the event-mask print/parse round trip is enumerated exhaustively. Exploration level: inputs are sampled (except the masks).",
+        "level_note": "trusts encoding/json for replay files and the harness's canonical renderers; compares only fields both representations carry",
     },
 }
+
+NOT_APPLICABLE = {}
